@@ -472,15 +472,36 @@ func c14UseProfile(ctx context.Context, p *agd.Profile) {
 }
 
 func c14KindOf(name string, key any) (kind, k string) {
-	switch name {
-	case "removeDevice":
-		return "dev", fmt.Sprint(key)
-	case "removeLinkedIP":
-		return "linked", c14Name(c14Linked, key.(netip.Addr))
-	case "removeDedicatedIP":
-		return "ded", c14Name(c14Ded, key.(netip.Addr))
-	case "removeHumanID":
-		hk := key.(humanIDKey)
+	// key holds all arguments of the clean-up; the one that names the map entry is found by its type
+	args, _ := key.([]any)
+	var addr netip.Addr
+	var hk humanIDKey
+	var dev agd.DeviceID
+	var haveAddr, haveHK, haveDev bool
+	for _, a := range args {
+		switch v := a.(type) {
+		case netip.Addr:
+			if !haveAddr {
+				addr, haveAddr = v, true
+			}
+		case humanIDKey:
+			if !haveHK {
+				hk, haveHK = v, true
+			}
+		case agd.DeviceID:
+			if !haveDev {
+				dev, haveDev = v, true
+			}
+		}
+	}
+	switch {
+	case name == "removeDevice" && haveDev:
+		return "dev", string(dev)
+	case name == "removeLinkedIP" && haveAddr:
+		return "linked", c14Name(c14Linked, addr)
+	case name == "removeDedicatedIP" && haveAddr:
+		return "ded", c14Name(c14Ded, addr)
+	case name == "removeHumanID" && haveHK:
 		return "human", string(hk.lower) + "|" + string(hk.profile)
 	}
 	return name, fmt.Sprint(key)
